@@ -337,6 +337,18 @@ pub struct Sim {
     rw: Arc<RecvWaker>,
 }
 
+impl Drop for Sim {
+    /// Stored stream wakers hold the queue's shared state, whose receiver waker holds the harness
+    /// state that stores those wakers: break the cycle, or every replay leaks both.
+    fn drop(&mut self) {
+        if let Ok(mut g) = self.sh.lock() {
+            for w in g.wakers.iter_mut() {
+                *w = None;
+            }
+        }
+    }
+}
+
 impl Sim {
     pub fn new(cfg: &Config) -> Sim {
         let probe: FairQueueProbe<SStream, usize> = FairQueueProbe::new(cfg.block_on_no_clients);
@@ -781,19 +793,25 @@ const SHARDS: usize = 64;
 
 struct Seen {
     shards: Vec<Mutex<std::collections::HashSet<u128>>>,
+    count: AtomicUsize,
 }
 
 impl Seen {
     fn new() -> Seen {
         Seen {
             shards: (0..SHARDS).map(|_| Mutex::new(Default::default())).collect(),
+            count: AtomicUsize::new(0),
         }
     }
     fn insert(&self, f: u128) -> bool {
-        self.shards[(f as usize) % SHARDS].lock().unwrap().insert(f)
+        let new = self.shards[(f as usize) % SHARDS].lock().unwrap().insert(f);
+        if new {
+            self.count.fetch_add(1, Ordering::Relaxed);
+        }
+        new
     }
     fn len(&self) -> usize {
-        self.shards.iter().map(|s| s.lock().unwrap().len()).sum()
+        self.count.load(Ordering::Relaxed)
     }
 }
 
@@ -843,6 +861,7 @@ pub fn bfs(cfg: &Config, relevant: &(dyn Fn(&str) -> bool + Sync), threads: usiz
         }
         let idx = AtomicUsize::new(0);
         let stop = std::sync::atomic::AtomicBool::new(false);
+        let capped = std::sync::atomic::AtomicBool::new(false);
         let accs: Mutex<Vec<Acc>> = Mutex::new(Vec::new());
         let lvl = &level;
         let seen_ref = &seen;
@@ -851,8 +870,15 @@ pub fn bfs(cfg: &Config, relevant: &(dyn Fn(&str) -> bool + Sync), threads: usiz
                 sc.spawn(|| {
                     install_thread_hooks();
                     let mut acc = Acc::default();
+                    let mut since_check = 0u32;
                     loop {
                         if stop.load(Ordering::Relaxed) {
+                            break;
+                        }
+                        // caps are enforced INSIDE a level too: one level can be tens of times larger than the previous one
+                        since_check += 1;
+                        if seen_ref.len() >= cfg.max_states || (since_check % 256 == 0 && zvcore::evidence::rss_bytes() > zvcore::evidence::rss_cap_bytes()) {
+                            capped.store(true, Ordering::Relaxed);
                             break;
                         }
                         let i = idx.fetch_add(1, Ordering::Relaxed);
@@ -946,7 +972,7 @@ pub fn bfs(cfg: &Config, relevant: &(dyn Fn(&str) -> bool + Sync), threads: usiz
             depth += 1;
             res.max_depth = depth;
         }
-        if seen.len() >= cfg.max_states {
+        if seen.len() >= cfg.max_states || capped.load(Ordering::Relaxed) {
             res.state_capped = true;
             break;
         }
@@ -1100,7 +1126,7 @@ pub fn general_configs(thorough: bool) -> Vec<Config> {
         windows: 1,
         window_remove_close: true,
         max_depth: if thorough { 24 } else { 16 },
-        max_states: if thorough { 3_000_000 } else { 400_000 },
+        max_states: if thorough { 8_000_000 } else { 1_000_000 },
         fairness: false,
         fair_bound: 0,
         block_on_no_clients: true,
@@ -1113,7 +1139,7 @@ pub fn general_configs(thorough: bool) -> Vec<Config> {
         Config { name: "k2-items2,1-win2".into(), k: 2, items: vec![2, 1], windows: 2, allow_remove: false, ..base.clone() },
     ];
     if thorough {
-        v.push(Config { name: "k3-items2,2,2-remove-close-win1-depth11".into(), k: 3, items: vec![2, 2, 2], preload: vec![0, 0, 0], max_depth: 11, max_states: 6_000_000, ..base.clone() });
+        v.push(Config { name: "k3-items2,2,2-remove-close-win1-depth11".into(), k: 3, items: vec![2, 2, 2], preload: vec![0, 0, 0], max_depth: 12, max_states: 12_000_000, ..base.clone() });
         v.push(Config { name: "k3-items2,1,1-remove-close-win2".into(), k: 3, items: vec![2, 1, 1], preload: vec![0, 0, 0], windows: 2, max_depth: 12, ..base.clone() });
         v.push(Config { name: "k2-items3,3-remove-close-win1".into(), k: 2, items: vec![3, 3], ..base.clone() });
     }
@@ -1131,7 +1157,7 @@ pub fn fairness_configs(thorough: bool) -> Vec<Config> {
         windows: 1,
         window_remove_close: false,
         max_depth: 30,
-        max_states: if thorough { 3_000_000 } else { 400_000 },
+        max_states: if thorough { 8_000_000 } else { 1_000_000 },
         fairness: true,
         fair_bound: 2,
         block_on_no_clients: true,
@@ -1160,6 +1186,10 @@ pub fn run_configs(ck: &mut zvcore::evidence::Check, cfgs: Vec<Config>, relevant
     for (i, c) in cfgs.iter().enumerate() {
         let r = bfs(c, &relevant, ck.threads);
         rs.push((i, r));
+        // hand the memory of the finished search back before the next one is measured against the cap
+        unsafe {
+            libc::malloc_trim(0);
+        }
     }
     let mut per_cfg = Vec::new();
     let mut all_exhaustive = true;
